@@ -31,7 +31,7 @@ def _gs_ensures(C, res):
 
 getSegments = FunctionSpec(
     file=F, qualname='Aligner.getSegments', params=dict(self=ALIGNER, isReverse=BOOL, peak=PEAK, query=OMAP, reference=OMAP), returns=LIST(SEG),
-    requires=_gs_requires, ensures=_gs_ensures, serves=('C04', 'C01', 'C13'),
+    requires=_gs_requires, ensures=_gs_ensures, serves=('C04', 'C01', 'C13'), class_invariants=True,
     note="per seed peak: pairing in the window [peak, peak + query length] -> scoring with the configured values -> segments; every callee precondition "
          "(ascending label lists, non-positive unmatched penalty so that unpaired positions do not score, positive minScore) is discharged at the call sites")
 
@@ -77,9 +77,9 @@ _align_note = ("(partial correctness) the candidate row of one reference/query/s
                "score is the sum of the scores of its positions (whatever conflict resolution removed)")
 align_list = FunctionSpec(
     file=F, qualname='Aligner.align', variant='peaks', params=dict(self=ALIGNER, reference=OMAP, query=OMAP, peaks=LIST(PEAK), isReverse=BOOL), returns=ROW,
-    requires=_gs_requires, ensures=_align_ensures('list'), may_raise={'IndexError'}, serves=('C04', 'C01', 'C02'), note=_align_note)
+    requires=_gs_requires, ensures=_align_ensures('list'), may_raise={'IndexError'}, class_invariants=True, serves=('C04', 'C01', 'C02'), note=_align_note)
 align_single = FunctionSpec(
     file=F, qualname='Aligner.align', variant='peak', params=dict(self=ALIGNER, reference=OMAP, query=OMAP, peaks=PEAK, isReverse=BOOL), returns=ROW,
-    requires=_gs_requires, ensures=_align_ensures('single'), may_raise={'IndexError'}, serves=('C04', 'C01', 'C02'), note=_align_note)
+    requires=_gs_requires, ensures=_align_ensures('single'), may_raise={'IndexError'}, class_invariants=True, serves=('C04', 'C01', 'C02'), note=_align_note)
 
 SPECS += [align_list, align_single]
